@@ -199,10 +199,31 @@ class PatCtx:
         self.domain = None
 
     def template(self, alpha, n):
+        """A class whose alternatives are single symbols is one hole.  A class with multi-token (or empty)
+        alternatives becomes a group of L positions (L = longest alternative), shorter alternatives padded with
+        EPS, and a fresh z3 choice variable ties the positions of the group to one alternative."""
+        import z3
+
         pos = []
+        groups = []
         for w in self.pattern:
             if w.startswith("?") and w in self.classes:
-                pos.append(list(self.classes[w]))
+                alts = [a.split() for a in self.classes[w]]
+                if all(len(a) == 1 for a in alts):
+                    pos.append([a[0] for a in alts])
+                    continue
+                L = max(len(a) for a in alts)
+                start = len(self.prefix) + len(pos)
+                for j in range(L):
+                    pos.append(sorted({alpha.idx(a[j]) if j < len(a) else alpha.eps for a in alts}))
+                groups.append((start, alts, L))
             else:
                 pos.append(w)
-        return toklex.Template(alpha, self.prefix + pos + self.suffix, name=self.name)
+        tpl = toklex.Template(alpha, self.prefix + pos + self.suffix, name=self.name)
+        for start, alts, L in groups:
+            c = z3.Int(f"{tpl.var}choice{start}")
+            tpl.extra += [c >= 0, c < len(alts)]
+            for j in range(L):
+                for ai, a in enumerate(alts):
+                    tpl.extra.append(z3.Implies(c == ai, tpl.kvars[start + j] == (alpha.idx(a[j]) if j < len(a) else alpha.eps)))
+        return tpl
